@@ -13,10 +13,11 @@ import CircuitModel.DriverOpener
 import CircuitModel.DriverCloser
 import CircuitModel.DriverMerge
 import CircuitModel.DriverManager
+import CircuitModel.DriverConsumers
 open CM
 
 def suites : List (String × (List (String × String) → List (String × String) → List String)) :=
-  [("rc", suiteRC), ("tc", suiteTC), ("rp", suiteRP), ("sd", suiteSD), ("circuit", suiteCircuit), ("opener", suiteOpener), ("closer", suiteCloser), ("merge", suiteMerge), ("manager", suiteManager)]
+  [("rc", suiteRC), ("tc", suiteTC), ("rp", suiteRP), ("sd", suiteSD), ("circuit", suiteCircuit), ("opener", suiteOpener), ("closer", suiteCloser), ("merge", suiteMerge), ("manager", suiteManager), ("consumers", suiteConsumers)]
 
 partial def readAll (h : IO.FS.Stream) (acc : Array String) : IO (Array String) := do
   let line ← h.getLine
